@@ -1345,6 +1345,10 @@ class LogixDriver(CIPDriver):
                 total_size = (bit or 0) + elements
                 elements = (total_size // 32) + (1 if total_size % 32 else 0)
 
+            if not 0 <= elements <= 0xFFFF:
+                # the element count of a tag service is a UINT
+                raise RequestError(f"Element count {elements} is out of range for tag {tag}")
+
             return {
                 "user_tag": request_tag,  # tag name from user, without element request
                 "plc_tag": tag,  # parsed tag name, the name of the tag in the plc the request will be using
